@@ -39,8 +39,17 @@ func (c PI) Clone() PI { return PI{Prog: c.Prog.Clone(), In: c.In.Clone()} }
 // Candidates returns one-step smaller variants, most aggressive first.
 func (c PI) Candidates() []PI {
 	var out []PI
+	// A candidate shares every sub-tree it does not change with the original (nothing below
+	// mutates a tree in place: statements and declarations are replaced in copied slices, inputs
+	// in copied maps). A deep copy per candidate made one round of the minimiser cost seconds
+	// on the large size strata, and a round is paid for every step of the descent.
 	add := func(f func(*PI) bool) {
-		n := c.Clone()
+		if len(out) >= 4000 {
+			return
+		}
+		n := PI{Prog: c.Prog, In: c.In.Clone()}
+		n.Prog.Vars = append([]VarDecl(nil), c.Prog.Vars...)
+		n.Prog.Stmts = append([]Stmt(nil), c.Prog.Stmts...)
 		if f(&n) {
 			out = append(out, n)
 		}
